@@ -58,7 +58,7 @@ class IMSCWriterConfiguration(ModuleConfiguration):
       if value is None:
         return None
 
-      m = re.fullmatch(r"(\d+)/(\d+)", value) if isinstance(value, str) else None
+      m = re.fullmatch(r"([0-9]+)/([0-9]+)", value) if isinstance(value, str) else None
 
       if m is None or int(m.group(1)) == 0 or int(m.group(2)) == 0:
         raise ValueError(f"Invalid fps '{value}' value. Expect: '<num>/<denom>' with positive integers.")
